@@ -24,6 +24,21 @@ func (fr *Frame) call(in ssa.Instruction, c *ssa.CallCommon, st *State, pc Term)
 	}
 	lastCallee, lastOrd := fr.lastCallee, fr.lastOrd
 	for _, cs := range fr.contract.CallSites {
+		if cs.Clause.Kind == "callset" && calleeMatches(cs.Callee, fr.lastCallee) && (cs.Ordinal == 0 || cs.Ordinal == fr.lastOrd) {
+			fr.csMatched[cs] = true
+			env := fr.specEnv(st, pc)
+			env.old = pre
+			vars := map[string]TV{}
+			sig := c.Signature()
+			for i, r := range res {
+				vars[fmt.Sprintf("result%d", i)] = TV{r, sig.Results().At(i).Type()}
+			}
+			if len(res) == 1 {
+				vars["result"] = TV{res[0], sig.Results().At(0).Type()}
+			}
+			fr.vc.ghostSet(env.with(vars), st, cs)
+			continue
+		}
 		if cs.Clause.Kind != "callassume" && cs.Clause.Kind != "calllet" {
 			continue
 		}
@@ -78,6 +93,27 @@ func (fr *Frame) call(in ssa.Instruction, c *ssa.CallCommon, st *State, pc Term)
 		}
 	}
 	return res
+}
+
+// ghostSet executes a set clause: the scalar ghost named by cs.Target takes
+// the value of the clause's expression in env.
+func (vc *VC) ghostSet(env *Env, st *State, cs *CallSiteSpec) {
+	g := vc.specs.ghost(cs.Target)
+	if g == nil || g.IsMap {
+		vc.specError(cs.Clause, fmt.Errorf("set: %q is not a scalar ghost", cs.Target))
+		return
+	}
+	v, err := env.eval(cs.Clause.E)
+	if err != nil {
+		vc.specError(cs.Clause, err)
+		return
+	}
+	if v.T.Sort != g.sort() {
+		vc.specError(cs.Clause, fmt.Errorf("set: ghost %s has sort %s, expression has sort %s", g.Name, g.sort(), v.T.Sort))
+		return
+	}
+	vc.heap(st, g.heapName(), g.sort()) // registers the heap
+	st.heaps[g.heapName()] = vc.def("gs:"+g.Name, v.T)
 }
 
 func (fr *Frame) callInner(in ssa.Instruction, c *ssa.CallCommon, st *State, pc Term) []Term {
@@ -240,7 +276,7 @@ func (fr *Frame) callInner(in ssa.Instruction, c *ssa.CallCommon, st *State, pc 
 		// heaps the callee is known to write are havoced even when they are
 		// protected from unknown callees (private / immutable types)
 		for _, h := range eff.sorted() {
-			if vc.specs.isPrivateHeap(h) || vc.specs.isImmutableHeap(h) {
+			if vc.specs.isPrivateHeap(h) || vc.specs.isImmutableHeap(h) || vc.specs.isSetGhostHeap(h) {
 				vc.havocHeapKeepOld(st, preTop, h, pc)
 			}
 		}
@@ -549,6 +585,7 @@ func (fr *Frame) inline(f *ssa.Function, ci *closureInfo, args []Term, st *State
 func (fr *Frame) specEnv(st *State, pc Term) *Env {
 	vc := fr.vc
 	env := &Env{vc: vc, vars: map[string]TV{}, st: st, old: fr.entry, fr: fr}
+	env.capOld = len(fr.fn.FreeVars) > 0
 	if fr.fn.Pkg != nil {
 		env.pkg = fr.fn.Pkg.Pkg
 		env.pkgKey = shortPkg(fr.fn.Pkg.Pkg.Path())
@@ -579,6 +616,7 @@ func (fr *Frame) modularCall(fc *FuncContract, callee *ssa.Function, c *ssa.Call
 		// clauses of a closure contract may name captured variables: they are
 		// the caller's own locals
 		env.fr = fr
+		env.capOld = true
 	}
 	// parameter names
 	names := calleeParamNames(fc, callee, c, sig)
@@ -616,7 +654,7 @@ func (fr *Frame) modularCall(fc *FuncContract, callee *ssa.Function, c *ssa.Call
 		if eff.top {
 			vc.havocAllHeaps(st)
 			for _, h := range eff.sorted() {
-				if vc.specs.isPrivateHeap(h) || vc.specs.isImmutableHeap(h) {
+				if vc.specs.isPrivateHeap(h) || vc.specs.isImmutableHeap(h) || vc.specs.isSetGhostHeap(h) {
 					vc.havocHeapKeepOld(st, pre, h, pc)
 				}
 			}
@@ -629,6 +667,16 @@ func (fr *Frame) modularCall(fc *FuncContract, callee *ssa.Function, c *ssa.Call
 	} else {
 		vc.havocAllHeaps(st)
 	}
+	// ghosts the callee assigns with set clauses change during the call
+	for _, n := range fc.setGhosts() {
+		if g := vc.specs.ghost(n); g != nil && !g.IsMap {
+			vc.heap(st, g.heapName(), g.sort())
+			vc.havocHeap(st, g.heapName())
+		}
+	}
+	if len(fc.Allocates) > 0 {
+		vc.havocNewObjects(st, pre, fc, pc)
+	}
 	if !fc.Pure {
 		if callee == nil || fr.mayRunLocalClosure(c) || fr.closures[c.Value] != nil {
 			fr.havocCaptured(st, pc)
@@ -640,6 +688,7 @@ func (fr *Frame) modularCall(fc *FuncContract, callee *ssa.Function, c *ssa.Call
 	post := &Env{vc: vc, vars: map[string]TV{}, st: st, old: pre, pkg: env.pkg, pkgKey: fc.Pkg}
 	if isClosure {
 		post.fr = fr
+		post.capOld = true
 	}
 	for k, v := range env.vars {
 		post.vars[k] = v
@@ -672,16 +721,19 @@ func (fr *Frame) modularCall(fc *FuncContract, callee *ssa.Function, c *ssa.Call
 	if nres == 1 {
 		post.vars["result"] = TV{res[0], sig.Results().At(0).Type()}
 	}
+	vc.atCalleeEnsures = shortCallee(fc.Name)
 	for _, e := range fc.Ensures {
 		// The channel-operation ghosts are per-activation counters: they count
 		// the operations the function under verification executes in its own
-		// body. What a callee's contract says about its own counters, and
-		// about names bound by its own "let" clauses, means nothing to a caller.
-		if mentionsAny(e.Src, chanGhostNames) || mentionsLet(fc, e.Src) {
+		// body. What a callee's contract says about its own counters means
+		// nothing to a caller. (Clauses about names bound by the callee's own
+		// "let" clauses are dropped like clauses naming callee locals.)
+		if mentionsAny(e.Src, chanGhostNames) {
 			continue
 		}
 		vc.assumeClause(pc, post, e)
 	}
+	vc.atCalleeEnsures = ""
 	for _, fname := range fc.Fresh {
 		if tv, ok := post.vars[fname]; ok {
 			ref := tv.T
@@ -721,18 +773,6 @@ func isIdentByte(c byte) bool {
 	return c == '_' || (c >= '0' && c <= '9') || (c >= 'a' && c <= 'z') || (c >= 'A' && c <= 'Z') || c >= 0x80
 }
 
-// mentionsLet reports whether the clause uses a name bound by one of the
-// contract's own "at call ... let" clauses.
-func mentionsLet(fc *FuncContract, src string) bool {
-	var names []string
-	for _, cs := range fc.CallSites {
-		if cs.Let != "" {
-			names = append(names, cs.Let)
-		}
-	}
-	return len(names) > 0 && mentionsAny(src, names)
-}
-
 // scalarArgs reports whether all arguments are heap-independent values.
 func scalarArgs(args []Term) bool {
 	for _, a := range args {
@@ -767,8 +807,62 @@ func calleeParamNames(fc *FuncContract, callee *ssa.Function, c *ssa.CallCommon,
 	return names
 }
 
+// havocNewObjects implements the "allocates" directive: the call creates and
+// initialises new objects. The heaps that hold objects of the listed struct
+// types ("*": every heap indexed by references) get new versions that agree
+// with the old ones on every object that existed before the call; only what
+// lies at or above the old watermark is unconstrained (to be described by the
+// callee's ensures clauses).
+func (vc *VC) havocNewObjects(st, pre *State, fc *FuncContract, pc Term) {
+	all := false
+	var prefixes []string
+	for _, a := range fc.Allocates {
+		if a == "*" {
+			all = true
+			continue
+		}
+		if !strings.Contains(a, "/") && fc.Pkg != "" {
+			a = fc.Pkg + "." + a
+		}
+		prefixes = append(prefixes, "H:"+a+".")
+	}
+	if st.wm.S == pre.wm.S {
+		vc.bumpWatermark(st)
+	}
+	for _, h := range vc.sortedHeapNames() {
+		info := vc.heapInfo[h]
+		if info == nil || !hasPrefix(info.Sort, "(Array Int ") || vc.errGlobals[h] || strings.HasPrefix(h, "|GH:") || strings.HasPrefix(h, "|G:") {
+			continue
+		}
+		match := all
+		for _, p := range prefixes {
+			if strings.HasPrefix(strings.Trim(h, "|"), p) {
+				match = true
+			}
+		}
+		if !match {
+			continue
+		}
+		old := vc.heap(pre, h, info.Sort)
+		if cur := vc.heap(st, h, info.Sort); cur.S != old.S {
+			// already given a new version by the write set: leave it
+			continue
+		}
+		vc.havocHeap(st, h)
+		vc.assume(pc, vc.frameFormula(st.heaps[h], old, h, nil, pre.wm))
+		vc.recordFrame(st.heaps[h], old, pre.wm, pc, nil)
+	}
+}
+
 func (vc *VC) specError(cl *Clause, err error) {
 	msg := fmt.Sprintf("contract error in %q: %v", cl.Src, err)
+	if strings.Contains(err.Error(), "unknown identifier") && vc.atCalleeEnsures != "" {
+		// An ensures clause of a callee that names one of the callee's own
+		// locals cannot be stated at a call site: the caller simply does not
+		// learn it (fewer assumptions: sound).
+		vc.warn("%s: clause of callee %s not usable at call sites (%v): %s", funcName(vc.fn), vc.atCalleeEnsures, err, cl.Src)
+		return
+	}
 	if strings.Contains(err.Error(), "unknown identifier") {
 		// The clause names a variable that no longer exists in the function:
 		// the proof no longer covers the code. Reported as a failed binding
@@ -1026,11 +1120,26 @@ func (k rangeKey) Parent() *ssa.Function         { return k.r.Parent() }
 func (k rangeKey) Referrers() *[]ssa.Instruction { return nil }
 func (k rangeKey) Pos() token.Pos                { return k.r.Pos() }
 
+// rangeCountKey keys the ghost number of keys a map range has produced so
+// far; rangeHas0Key the key set of the map when the range started.
+type rangeCountKey struct{ rangeKey }
+
+func (k rangeCountKey) Name() string   { return "visitedcount:" + k.r.Name() }
+func (k rangeCountKey) String() string { return k.Name() }
+
+type rangeHas0Key struct{ rangeKey }
+
+func (k rangeHas0Key) Name() string   { return "rangekeys0:" + k.r.Name() }
+func (k rangeHas0Key) String() string { return k.Name() }
+
 func (fr *Frame) rangeInit(in *ssa.Range, st *State, pc Term) {
 	vc := fr.vc
 	if mt, ok := in.X.Type().Underlying().(*types.Map); ok {
 		ks := vc.sortOf(mt.Key())
 		st.cells[rangeKey{in}] = Term{fmt.Sprintf("((as const %s) false)", arraySort(ks, SBool)), arraySort(ks, SBool)}
+		st.cells[rangeCountKey{rangeKey{in}}] = tZero
+		has, _, _, _, _ := fr.mapHeaps(st, in.X.Type())
+		st.cells[rangeHas0Key{rangeKey{in}}] = vc.def("rangekeys0", sel(has, fr.val(in.X)))
 		fr.vals[in] = fr.val(in.X)
 		return
 	}
@@ -1067,20 +1176,38 @@ func (fr *Frame) next(in *ssa.Next, st *State, pc Term) {
 	mt := rng.X.Type()
 	m := fr.val(rng.X)
 	mu := mt.Underlying().(*types.Map)
-	has, val, _, ks, _ := fr.mapHeaps(st, mt)
+	has, val, ln, ks, _ := fr.mapHeaps(st, mt)
 	visited, live := st.cells[key]
 	if !live {
 		visited = vc.fresh("visited", arraySort(ks, SBool))
 	}
+	count, cntLive := st.cells[rangeCountKey{key}]
+	has0, has0Live := st.cells[rangeHas0Key{key}]
 	okT := vc.fresh(fr.name(in)+":ok", SBool)
 	k := fr.freshTyped(fr.name(in)+":k", mu.Key(), st, pc)
 	isNil := eq(m, tZero)
 	vc.assume(pc, implies(okT, and(not(isNil), sel(sel(has, m), k), not(sel(visited, k)))))
 	qk := "(forall ((qk " + ks + ")) (=> (select (select " + has.S + " " + m.S + ") qk) (select " + visited.S + " qk)))"
 	vc.assume(pc, implies(not(okT), or(isNil, Term{qk, SBool})))
+	// (extensionality, stated for the solver) an exhausted range whose
+	// produced keys are all keys of the map has produced exactly its key set
+	qv := "(forall ((qk " + ks + ")) (=> (select " + visited.S + " qk) (select (select " + has.S + " " + m.S + ") qk)))"
+	vc.assume(pc, implies(and(not(okT), not(isNil), Term{qv, SBool}), eq(visited, sel(has, m))))
 	v := vc.def(fr.name(in)+":v", sel(sel(val, m), k))
 	vc.assume(pc, implies(okT, vc.typeFacts(v, mu.Elem(), st.wm)))
 	st.cells[key] = vc.def("visited", ite(okT, store(visited, k, tTrue), visited))
+	// a map that holds a key is not empty; as long as the key set is the one
+	// the range started with, every key is produced exactly once: the number
+	// of keys produced so far is below len(m), and equals it when the range
+	// is exhausted
+	vc.assume(pc, implies(okT, le(intLit(1), sel(ln, m))))
+	if cntLive && has0Live {
+		same := eq(sel(has, m), has0)
+		vc.assume(pc, le(tZero, count))
+		vc.assume(pc, implies(and(same, okT), lt(count, sel(ln, m))))
+		vc.assume(pc, implies(and(same, not(okT), not(isNil)), eq(count, sel(ln, m))))
+		st.cells[rangeCountKey{key}] = vc.def("visitedcount", ite(okT, add(count, intLit(1)), count))
+	}
 	fr.tuples[in] = []Term{okT, k, v}
 }
 
